@@ -97,7 +97,16 @@ def decorate(rng, src: str) -> str:
     if r < 0.55:
         n, m = rng.choice(SHORT), rng.choice(SHORT)
         return f"{n}(Select({src} if False else ds, lambda q: {m}(q.nums) + {rng.choice(SHORT)}(q.jets.Select(lambda j: {m}(j.vals)))).pack.items)"
-    if r < 0.65:
+    if r < 0.62:
+        # a lambda parameter spelled like a shortcut: the property says every one-argument call of these names is lowered, at
+        # any depth inside lambdas, whatever else the name may mean there (seed C19-w7-2)
+        n, m = rng.choice(SHORT), rng.choice(SHORT)
+        return rng.choice([
+            f"({src}, Select(ds, lambda {n}: {n}(ds)))",
+            f"Select(ds, lambda {n}: Select({n}.jets, lambda v: v.pt + {n}(ds) + {m}(v.vals)))",
+            f"({src}, (lambda {n}, k: {n}(k.nums) + {m}(k.nums))(1, First(ds)))",
+        ])
+    if r < 0.7:
         sites = [m for m in re.finditer(r"\b(len|Count|Sum|Max|Min)\(", src)]
         if sites:
             m = rng.choice(sites)
